@@ -11,6 +11,7 @@ import math
 import re
 
 from vlib.common import *
+from props import wrappers
 
 C_LIGHT = 299792458
 POL = {  # phase-matching type -> (pump, signal, idler), from the names e -> e o etc. (property text: "dictated by the type")
@@ -389,11 +390,12 @@ def replay(ctx, binp):
 def run(ctx):
     binp = build_harness(ctx)
     if ctx.replay:
-        return replay(ctx, binp)
-    msgs, spans = regen(ctx, ["idler"])
+        r = wrappers.try_replay(ctx, binp)      # a record written by the wrappers stage (SPDC::delta_k forwarding, phasematch_sinc / gaussian)
+        return r if r is not None else replay(ctx, binp)
+    msgs, spans = regen(ctx, ["idler", "wrappers", "pmsimple"])
     ctx.cov["translated_spans"] = {k: v for k, v in spans.items() if any(s in v["file"] for s in ("pm_type", "types.rs", "periodic_poling", "beam/mod", "delta_k", "utils.rs", "math/mod"))}
     for m in msgs:
-        ctx.proof_failures.append(("Gen/Idler.v", "translator", m))
+        ctx.proof_failures.append(("Gen/Idler.v" if m.rstrip().endswith("[generator idler]") else "Gen/Wrappers.v / Gen/PMSimple.v", "translator", m))
     proved = (not msgs) and prove(ctx, "C03", extra_targets=["Proofs/C03_tac.vo"])
     # the refuted-finding lemmas are outside the property's obligations: when they stop compiling, only note it
     if not msgs:
@@ -411,6 +413,8 @@ def run(ctx):
         correspondence(ctx, cases[:55] if ctx.tier == "quick" else cases[:330])
     else:
         ctx.note("correspondence cases skipped: generated model did not compile")
+    # SPDC::delta_k / optimum_idler forwarders (Gen/Wrappers.v) and the two functions that read Delta k through them (Gen/PMSimple.v)
+    wrappers.run_stage(ctx, binp, "delta_k", n=15 if ctx.tier == "quick" else 150)
     if (not proved or ctx.case_failures) and not unknown_failing_input(ctx):
         ctx.log("S5 deep search for a failing input (proof obligations / correspondence are broken)")
         for k in range(3):
@@ -431,7 +435,13 @@ def run(ctx):
         "idler direction parallel to a forward closing vector": "proved for every signal polar angle in (-pi/2, pi/2)",
         "collinear -> collinear": "proved", "residual mismatch parallel to idler": "proved (same scope)",
         "error when ls <= lp": "proved (iff)", "binary64 evaluation": "measured (1e-9 |kp| on delta_k, 1e-12 on sin(theta_i))",
-        "index along a direction": "oracle (property C02)"}
+        "index along a direction": "oracle (property C02)",
+        "SPDC::delta_k(omega_s, omega_i) / optimum_idler / assign_optimum_idler / assign_optimum_crystal_theta forward to delta_k / try_new_optimum / "
+        "assign_optimum_theta with the object's fields in the order of the callee's signature":
+            "proved on the generated forwarders (C03_spdc_delta_k, C03_spdc_optimum_idler, C03_spdc_assign_optimum_idler, "
+            "C03_spdc_assign_optimum_crystal_theta over Gen/Wrappers.v); SPDC::delta_k = delta_k on the fields bit for bit (S5, every case also "
+            "evaluated with the frequencies exchanged); phasematch_sinc / phasematch_gaussian on that Delta k and the small functions of "
+            "Gen/PMSimple.v = implementation by interval goals"}
     return finish(ctx, assumptions=["the refractive index along a direction is an uninterpreted function (C02 covers it)",
                                     "binary64 rounding is measured by the correspondence cases, not proved",
                                     "SPDC::assign_optimum_idler deliberately keeps the waist of the idler already present (source comment); "
